@@ -72,6 +72,10 @@ impl C01 {
         if via_file && stale > 0 {
             cx.count(if stale == 1 { "saved_over_existing_longer_file" } else { "saved_over_existing_same_length_file" });
         }
+        let (short_sink, self_n) = (!via_file && cx.n % 8 == 5, cx.n);
+        if short_sink {
+            cx.count("written_to_short_sink_too");
+        }
         let written = guard(|| -> Result<Vec<u8>, String> {
             if via_file {
                 // history dimension: every other case saves over an existing, much longer file
@@ -93,12 +97,23 @@ impl C01 {
             } else {
                 let mut buf = Vec::new();
                 lib.write(&mut buf).map_err(|e| format!("{:?}", e))?;
+                // equivalent destination: a sink that takes only a few bytes per call must receive the very same stream
+                if short_sink {
+                    let mut sw = ShortWriter { inner: Vec::new(), max: 1 + (self_n % 13) as usize };
+                    if lib.write(&mut sw).is_ok() && sw.inner != buf {
+                        return Err(format!("SHORT-SINK-DIFFERS sink={} bytes, vec={} bytes", sw.inner.len(), buf.len()));
+                    }
+                }
                 Ok(buf)
             }
         });
         let buf = match written {
             Err(c) => {
                 cx.violation(&format!("write-panic|{}|{}", c.site(), c.norm_msg()), json!({"case": desc, "panic": c.msg, "at": format!("{}:{}", c.file, c.line)}));
+                return;
+            }
+            Ok(Err(e)) if e.starts_with("SHORT-SINK-DIFFERS") => {
+                cx.violation("write-to-short-sink-differs", json!({"case": desc, "what": e}));
                 return;
             }
             Ok(Err(e)) if e.starts_with("SAVE-DIFFERS-FROM-WRITE") => {
